@@ -122,6 +122,15 @@ def parseE : Nat → List Char → Option (E × List Char)
         let (xs, rest') ← parseEL fuel r
         some (.call f xs, rest')
       | _ => none
+    else if c == 'X' || c == 'A' then
+      -- X[e k] = `e[k]`, A[e s<name>.] = `e.name`
+      match rest with
+      | '[' :: r => do
+        let (xs, rest') ← parseEL fuel r
+        match xs with
+        | [e, k] => some (.idx e k, rest')
+        | _ => none
+      | _ => none
     else if c == '[' then do
       let (xs, rest') ← parseEL fuel rest
       some (.seq xs, rest')
@@ -279,22 +288,43 @@ def ammoToken (r : Option V) : String :=
 
 /-! ### handler -/
 
+/-- the function table of the CURRENT source (regenerated): what the implementation is predicted to do -/
 def fns : List (String × String) := Gen.HclYaml.hclFunctions
 
-def predict (d : V) : String :=
-  let r := decode tables (marshal tables (complete tables d))
-  match r with
-  | none => "H=() Y== A=" ++ ammoToken r
-  | some rec =>
-    match dumpRec tables (.struct tables.cfgRoot) rec with
-    | none => "H=ERR Y== A=-"
-    | some s => "H=" ++ s ++ " Y== A=" ++ ammoToken r
+/-- the documented function table: what an HCL file MEANS -/
+def docFns : List (String × String) := Pandora.Spec.C16.docFunctions
 
-/-- the description the HCL spelling denotes: evaluated from its syntax tree when the input carries one -/
-def denoted (kv : List (String × String)) (d : V) : Option V :=
+def recordOf (d : V) : Option V := decode tables (marshal tables (complete tables d))
+
+/-- canonical dump of a decoded record ("ERR": the record carries a decode error marker) -/
+def dumpOfRecord (r : Option V) : String :=
+  match r with
+  | none => "()"
+  | some rec => (dumpRec tables (.struct tables.cfgRoot) rec).getD "ERR"
+
+def predict (d : V) : String :=
+  let r := recordOf d
+  let s := dumpOfRecord r
+  if s == "ERR" then "H=ERR Y== A=-" else "H=" ++ s ++ " Y== A=" ++ ammoToken r
+
+/-- prediction when the implementation's function table evaluates the file to `dc` while the file means `d` -/
+def predictPair (dc d : V) : String :=
+  let hs := dumpOfRecord (recordOf dc)
+  let ys := dumpOfRecord (recordOf d)
+  if hs == ys then predict dc else "H=" ++ hs ++ " Y=" ++ ys ++ " D=? A=?"
+
+/-- prediction for a file the implementation refuses -/
+def predictRefused (d : V) : String :=
+  let ys := dumpOfRecord (recordOf d)
+  if ys == "ERR" then "H=ERR Y== A=-" else "H=ERR Y=" ++ ys ++ " A=-"
+
+/-- the description the HCL spelling denotes under function table `F`: evaluated from its syntax tree and converted to
+the types of the HCL structs; `none` = the input carries no syntax tree (the description itself is the file);
+`some none` = the file does not evaluate -/
+def denoted (F : List (String × String)) (kv : List (String × String)) : Option (Option V) :=
   match lookup kv "hb" with
-  | none => some d
-  | some hb => (parseFile (getS kv "lb" "[]") hb).bind (evalFile fns)
+  | none => none
+  | some hb => some ((parseFile (getS kv "lb" "[]") hb).bind (hclDescription tables F))
 
 def handle : Handler := fun input impl =>
   let kv := parseKV input
@@ -306,7 +336,21 @@ def handle : Handler := fun input impl =>
   match parseTree (getS kv "d") with
   | none => ("-", "fail:driver:unreadable description")
   | some d =>
-    match denoted kv d with
+    let mal := getS kv "mal"
+    -- what the file MEANS (documented functions) and what the implementation's table makes of it
+    let meant : Option V := match denoted docFns kv with
+      | none => some d
+      | some r => r
+    let coded : Option V := match denoted fns kv with
+      | none => some d
+      | some r => r
+    if mal == "3" then
+      -- a file with a `locals` block / expression that does not evaluate: it must be refused as a whole
+      match meant with
+      | some _ => ("-", "skip:hcl-spelling-of-a-broken-file-evaluates")
+      | none => (predictRefused d, Pandora.Spec.C16.verdictRefuse impl)
+    else
+    match meant with
     | none =>
       -- the spelling uses an expression the model of the HCL functions does not evaluate: no prediction
       ("-", if v == "ok" then "skip:hcl-expression-outside-the-model" else v)
@@ -319,12 +363,14 @@ def handle : Handler := fun input impl =>
         -- what yaml.v2 does to the characters of a scalar is outside the model: no prediction; a disagreement of the two
         -- front-ends on such a description is reported under its own key
         ("-", if v == "ok" then v else "fail:merge-key:a map key `<<` written in HCL is marshalled unquoted by yaml.v2 and read back as a YAML merge key (" ++ v ++ ")")
-      else if getS kv "mal" == "1" then
+      else if mal == "1" then
         -- malformed stream: only the agreement of the two front-ends is judged (validation inside plugin constructors is
         -- outside the model)
         ("-", v)
       else
-        let p := predict d'
-        if p.endsWith "A=?" then ("-", if v == "ok" then "skip:ammo-list-too-large-to-expand" else v) else (p, v)
+        let p := match coded with
+          | none => predictRefused d
+          | some dc => if dumpData dc == dumpData d then predict d else predictPair dc d
+        if p.endsWith "A=?" && !(p.endsWith "D=? A=?") then ("-", if v == "ok" then "skip:ammo-list-too-large-to-expand" else v) else (p, v)
 
 end Pandora.Drv.C16
